@@ -106,7 +106,7 @@ func (m *monC05) Finish(rc *RunCtx) {
 		bad := false
 		for i := 0; i < n && i < len(want); i++ {
 			if recs[i].zeit != want[i] {
-				rc.Violate("C05", "daily_record_date", fmt.Sprintf("daily record %d is dated %q, expected %s (interval %d, start %s)", i+1, recs[i].fields[0], DateOfZeit(want[i]), sc.OutInterval, sc.Start), want[i], 0, nil)
+				rc.Violate("C05", "daily_record_date", fmt.Sprintf("daily record %d is dated %q, expected %s (interval %d, start %s)", i+1, recs[i].raw, DateOfZeit(want[i]), sc.OutInterval, sc.Start), want[i], 0, nil)
 				bad = true
 				break
 			}
@@ -115,7 +115,7 @@ func (m *monC05) Finish(rc *RunCtx) {
 			rc.Violate("C05", "daily_records_missing", fmt.Sprintf("daily file has %d records, expected %d: first missing %s (end date %s)", n, len(want), DateOfZeit(want[n]), sc.End), want[n], 0, nil)
 		}
 		if !bad && n > len(want) {
-			rc.Violate("C05", "daily_records_after_end", fmt.Sprintf("daily file has %d records, expected %d: extra record dated %q after the end %s (configured end date %s, annual output date in the end year %s)", n, len(want), recs[len(want)].fields[0], DateOfZeit(want[len(want)-1]), sc.End, DateOfZeit(annualEnd)), 0, 0, nil)
+			rc.Violate("C05", "daily_records_after_end", fmt.Sprintf("daily file has %d records, expected %d: extra record dated %q after the end %s (configured end date %s, annual output date in the end year %s)", n, len(want), recs[len(want)].raw, DateOfZeit(want[len(want)-1]), sc.End, DateOfZeit(annualEnd)), 0, 0, nil)
 		}
 		for _, r := range recs {
 			if !checkFieldCount(rc, "C05", "daily file", sc.DailyCols, csv, r) {
@@ -129,6 +129,20 @@ func (m *monC05) Finish(rc *RunCtx) {
 			}
 		}
 		rc.Cov("daily_records", int64(n))
+		if colIndex(sc.DailyCols, "AKTUELL") > 0 {
+			rc.Cov("runs_date_column_not_first", 1)
+		}
+		for _, r := range recs {
+			if len(r.fields) > 0 && strings.TrimSpace(r.fields[0]) == "" {
+				rc.Cov("records_leading_empty_field", 1)
+			}
+		}
+		if sc.OutStyle.Sep != "" && csv {
+			rc.Cov("runs_csv_other_separator", 1)
+		}
+		if sc.OutStyle.HeadLines != 0 && sc.OutStyle.headLines() != 1 {
+			rc.Cov("runs_header_lines_0_or_2", 1)
+		}
 		rc.Cov(fmt.Sprintf("runs_interval_%d", sc.OutInterval), 1)
 		// leap days inside the period
 		for _, z := range want {
@@ -139,7 +153,7 @@ func (m *monC05) Finish(rc *RunCtx) {
 	}
 	// ---------------- yearly file ----------------
 	if p := resultFile(rc, "Y"); p != "" {
-		yr, err := readRecords(p, sc.YearlyCols, csv, 0, sc.DateFormat, sc.DivideCentury)
+		yr, err := readRecordsStyle(p, sc.YearlyCols, sc.OutStyle, csv, colIndex(sc.YearlyCols, "AKTUELL"), sc.DateFormat, sc.DivideCentury)
 		if err == nil {
 			var want []int
 			yEnd := end
@@ -159,7 +173,7 @@ func (m *monC05) Finish(rc *RunCtx) {
 					if yr[i].zeit == want[i]-1 || yr[i].zeit == want[i]+1 {
 						sig = "annual_doy_leap_shift"
 					}
-					rc.Violate("C05", sig, fmt.Sprintf("yearly record %d is dated %q, expected the annual output date %s", i+1, yr[i].fields[0], DateOfZeit(want[i])), want[i], 0, nil)
+					rc.Violate("C05", sig, fmt.Sprintf("yearly record %d is dated %q, expected the annual output date %s", i+1, yr[i].raw, DateOfZeit(want[i])), want[i], 0, nil)
 					okDates = false
 					break
 				}
@@ -180,7 +194,8 @@ func (m *monC05) Finish(rc *RunCtx) {
 	}
 	// ---------------- crop file ----------------
 	if p := resultFile(rc, "C"); p != "" {
-		cr, err := readRecords(p, sc.CropCols, csv, -1, sc.DateFormat, sc.DivideCentury)
+		cr, err := readRecordsStyle(p, sc.CropCols, sc.OutStyle, csv, -1, sc.DateFormat, sc.DivideCentury)
+		iCrop, iHD, iHY := colIndex(sc.CropCols, "Crop"), colIndex(sc.CropCols, "HarvestDOY"), colIndex(sc.CropCols, "HarvestYear")
 		if err == nil {
 			type exp struct {
 				crop string
@@ -205,12 +220,12 @@ func (m *monC05) Finish(rc *RunCtx) {
 			okRec := true
 			for i := 0; i < len(cr) && i < len(want); i++ {
 				f := cr[i].fields
-				if len(f) < 8 {
-					break
+				if len(f) != len(sc.CropCols) {
+					break // reported by the field count check below
 				}
-				crop := strings.TrimSpace(f[0])
-				hd, _ := strconv.Atoi(strings.TrimSpace(f[6]))
-				hy, _ := strconv.Atoi(strings.TrimSpace(f[7]))
+				crop := strings.TrimSpace(f[iCrop])
+				hd, _ := strconv.Atoi(strings.TrimSpace(f[iHD]))
+				hy, _ := strconv.Atoi(strings.TrimSpace(f[iHY]))
 				if crop != want[i].crop || hy != want[i].harv.Y || (!sc.AutoHarvest && !sc.AutoSow && hd != want[i].harv.DOY()) {
 					rc.Violate("C05", "crop_record_mismatch", fmt.Sprintf("crop record %d is %s harvested on day %d of %d, the rotation entry is %s harvested %s", i+1, crop, hd, hy, want[i].crop, want[i].harv), 0, 0, nil)
 					okRec = false
@@ -244,7 +259,7 @@ func (m *monC05) Finish(rc *RunCtx) {
 
 func init() {
 	simProps["C05"] = simProp{checkSpec{Prop: "C05", Level: "exploration", NQuick: 2000, NThorough: 40000,
-		Rule:   "cases = generated projects with random start / end / annual output dates (incl. leap years, 30./31. of a month), output intervals {0 (no daily file),1,2,3,7,10,30,365}, both result styles, random output configurations over scalars, 1-D and 2-D array elements, nested fields, text and unknown variables; the V/Y/C files written by the real run are parsed and compared with an independent calendar: one record per expected day / annual date / harvested rotation entry, in order, with exactly the configured number of fields; non-trivial = run > 30 days",
-		Floors: []string{"daily_records", "yearly_records", "crop_records", "runs_csv", "runs_fixed_width", "leap_days_expected", "runs_interval_1", "runs_interval_7", "runs_interval_365", "runs_interval_0"}},
+		Rule:   "cases = generated projects with random start / end / annual output dates (incl. leap years, 30./31. of a month), output intervals {0 (no daily file),1,2,3,7,10,30,365}, both result styles, random output configurations over scalars, 1-D and 2-D array elements, nested fields, text and unknown variables (date column at any position, records that begin with an empty text field, four alignments, separators , ; | :, not-available values incl. the empty string, 0-2 header lines, yearly and crop columns in random order); the V/Y/C files written by the real run are parsed and compared with an independent calendar: one record per expected day / annual date / harvested rotation entry, in order, with exactly the configured number of fields; non-trivial = run > 30 days",
+		Floors: []string{"daily_records", "yearly_records", "crop_records", "runs_csv", "runs_fixed_width", "leap_days_expected", "runs_interval_1", "runs_interval_7", "runs_interval_365", "runs_interval_0", "runs_date_column_not_first", "records_leading_empty_field", "runs_csv_other_separator", "runs_header_lines_0_or_2"}},
 		func() []Monitor { return []Monitor{&monC05{}} }}
 }
